@@ -9,7 +9,8 @@ credentials at once, rotated-away htpasswd password) × 9 endpoints × 4 methods
 49 (thorough) instances from a pairwise covering array; the upstream's own log is the ground truth. ≈50 k evaluations /
 1.5 k cells quick (≈25 s), 448 k thorough (≈3 min). Found on the unchanged tree: Redis store answered **500** for any
 undecodable ticket cookie on protected paths and sign-out (fixed, §5). 15/15 own mutants caught, 2 controls silent.
-Recorded, not judged: `/oauth2/auth?allowed_groups=zz;x=1` → 202 (Go drops query pairs containing `;`).""",
+Recorded, not judged: `/oauth2/auth?allowed_groups=zz;x=1` → 202 (Go drops query pairs containing `;`).
+Round 2 added: client-IP headers other than the configured one in the bypass states; symlink-swap (ConfigMap layout) replacement of the e-mails file between requests.""",
 "C02": """*As built* (`harness/c02_tamper.go`, `c02_variants.go`, `c02_opacity.go`). The plain "rejected or identical" rule cannot
 see MAC weaknesses (a truncated signature on a live cookie still decodes identically), so the oracle became: outcome ∈
 {rejected} ∪ {all six identity fields of a session that THIS instance issued and that is still alive} — variants of expired
@@ -19,7 +20,8 @@ for split cookies in quick, all positions in thorough). Opacity: key-less recove
 msgpack walk) of 904 cookie/Redis values against 1 392 secrets, IV/nonce-reuse monitor, and decryption attempts with keys
 derived from store contents only. ≈65 k evaluations quick (≈30 s), 920 k thorough (≈12 min). 12/12 own mutants caught, 3
 controls silent ("join tolerant of reordered parts" is not a violation of the property as stated: reordered parts are still
-rejected or identical).""",
+rejected or identical).
+Round 2 added: a concurrent issuing phase (every unmodified cookie must decode to exactly the session it was issued for) and a known-answer check (issued cookies decrypted with an independent implementation of the documented cipher).""",
 "C03": """*As built* (`harness/c03_csrf.go`). Part A pairing matrix: 9 (quick) / 32 (thorough) configurations × 3 instances (main,
 sibling secret, sibling encode-state) × two browsers × three interleaved logins × ≈40 cookie sets × 26 state variants;
 Part B jar histories: all completion permutations of 1–3 logins per browser + seeded random walks, with the explicit rule
@@ -33,13 +35,15 @@ deviation, all pairs (thorough) and seeded combinations, on callback / refresh /
 issuer) and 13–16 configurations; temporal re-presentation pairs (a token accepted while valid must be refused after its
 `exp`, bearer and ValidateSession paths). `V ⇒ session` is not asserted ("created only from"); each path must show ≥ 20
 sessions from valid tokens or the run is inconclusive. ≈4.1 k evaluations / 2.1 k cells quick (≈15 s), 59 k thorough.
-18/18 own mutants caught, 2 controls silent.""",
+18/18 own mutants caught, 2 controls silent.
+Round 2 added: claims that are present but empty while the profile endpoint returns a value; an extra JWT issuer whose discovery fails at start-up (JWKS-only fallback) presented with a foreign `iss`; 27 audience shapes.""",
 "C05": """*As built* (`harness/c05_nonce_pkce.go`). 12 instances × 19 scripted provider nonce behaviours × 4 (quick) / 9 (thorough)
 login shapes × own / foreign code. History rules over the IdP log joined with the harness's own decryption of the CSRF
 cookies; leak monitor with planted-leak self-test. ≈12 k evaluations quick (4.2 k callbacks, 7.8 k logins, ≈5.2 k distinct
 verifiers, 10.5 k scanned responses; ≈20 s), 92 k thorough. 10 own mutants caught (one — raw nonce sent in the login URL
 and accepted back — by the leak monitor only), 2 controls silent. No defect found. Observed: the callback redeems the code
-before the state check (a mismatching state still burns the code).""",
+before the state check (a mismatching state still burns the code).
+Round 2 added: OIDC-derived providers (entra-id with allowed tenants, …) in the nonce sweep; an entropy-fault phase (crypto/rand.Reader wrapped to fail transiently at chosen reads); uniqueness of every 8-byte word of nonce / verifier material across concurrent starts.""",
 "C06": """*As built* (`harness/c06_browserurl.go`, `c06_selftest.go`, `c06_gen.go`, `c06_channels.go`, `c06_redirect.go`).
 BrowserURL passes 190 self-tests (149 spec cases) at the start of every run. 17 delivery channels; because the proxy
 serialises requests on a process-wide lock (per-request registration with the default Prometheus registry), the bulk runs in
@@ -48,20 +52,23 @@ race-built parent runs the self-tests, a pass over all channels, the wire compar
 and the fidelity clause. 1.31 M evaluations / 26 k cells quick (≈50 s incl. both builds), 30.9 M thorough (≈8 min). 12 own
 mutants caught, 5 controls silent (one "Aimed at" candidate — `\\.{1,2}` → `\\.` — is redundant: brute force over 48 M
 strings finds none that leaves the origin). No violation on the unchanged tree. Judgement calls: trailing-dot FQDN = same
-name; the bare domain of a `.x` / `*.x` entry is accepted (repo's own tests expect it).""",
+name; the bare domain of a `.x` / `*.x` entry is accepted (repo's own tests expect it).
+Round 2 added: whitelist configurations with empty entries and empty-authority URLs; the links of callback-failure pages as a channel; paths that merely share the proxy prefix string and a second proxy prefix.""",
 "C07": """*As built* (`harness/c07_headers.go`). 56 legacy + 43 alpha configurations quick (544 + 203 thorough), sessions from 8
 cookie identities, 3 bearer JWTs, htpasswd Basic and form, none, invalid cookie; 9 client header styles incl. names listed
 in the client's `Connection` header; everything over the wire driver. A concurrent phase (10 users hammering three
 Basic-auth/claim configurations at once, 9 k requests quick) judges every request against the rendering of its OWN session
 and turns race reports in `pkg/header` / `headers.go` into violations. ≈23 k evaluations quick (≈20 s), 293 k thorough.
 Found on the unchanged tree: client-controlled `Connection` header dropped injected headers (fixed), `--prefer-email-to-user`
-leaves `X-Forwarded-Email` unstripped (known finding), F2 panic (fixed). 19/19 own mutants caught, 2 controls silent.""",
+leaves `X-Forwarded-Email` unstripped (known finding), F2 panic (fixed). 19/19 own mutants caught, 2 controls silent.
+Round 2 added: identities whose claim values begin with the configured header prefix.""",
 "C08": """*As built* (`harness/c08_authz.go`). ≈100 (quick) / 363 (thorough) subjects × 18 rule sets × both stores × host-only and
 `--cookie-domain` variants; sources: cookie issued by a permissive instance and presented after an "operator restart" with
 stricter rules, bearer, htpasswd Basic, htpasswd form; refusal judged by replaying the response into a jar; 819 login cases
 (status, cookie, Redis key, follow-up), ≈4.4 k auth-only constraint queries, e-mail-file rewrites (atomic and in place, incl.
 emptied lists), e-mail-less logins through `--provider=adfs`. ≈24 k evaluations quick (≈30 s), 100 k thorough. The reverse
-direction (rules pass ⇒ served) is C01's. 17/17 own mutants caught, 2 controls silent.""",
+direction (rules pass ⇒ served) is C01's. 17/17 own mutants caught, 2 controls silent.
+Round 2 added: reload histories where the e-mails file sits behind a symlink whose target is swapped.""",
 "C09": """*As built* (`harness/c09_lifetime.go`). Phase A threshold grid (sequential, `clock.Set` only around the issuing request,
 bracketed probes, straddled brackets re-issued ≤ 4×); B refresh histories (new and superseded credential probed); C
 real-time timeline at sub-second marks; D store expiry in a second world (`FastForward`). 16 instances quick; 909 Max-Age
@@ -80,7 +87,8 @@ the sign-out request itself; replay of every archived cookie, each generation an
 160 histories with 336 injected `DEL` faults (5 kinds, retries 0 / 2 / default). For the cookie store a stateless cookie
 replayed from the archive is NOT a violation; the jar after the sign-out response must hold no session cookie. ≈15 s quick.
 Found: refresh-on-sign-out leaves new cookies (fixed), multi-domain sign-out deletes under another domain (known finding).
-12 own mutants caught, 2 controls silent.""",
+12 own mutants caught, 2 controls silent.
+Round 2 added: multi-login histories (login A, login B in the same browser without sign-out, sign-out, replay of A's cookie).""",
 "C12": """*As built* (`harness/c12_refresh.go`). 8 universes × 2 replicas and 8 × 3 replicas (each universe: own world, miniredis,
 hub, fronts, IdP with per-replica token path `/token/inst<k>`, skip-discovery). Gates: GET/SET/DEL/OBTAIN/RELEASE on the
 session and lock keys and the refresh grant. n=2 explored completely for five provider behaviours (≈1.4 k schedules, the
@@ -89,7 +97,8 @@ order + 300 seeded random schedules quick, complete in thorough; stress 40 round
 delays at the gates); sequential ages × 6 behaviours × both stores incl. a SECOND refresh cycle and a provider that rotates
 refresh tokens but returns no id_token on refresh. ≈2.5 k evaluations / 2.3 k distinct interleavings quick (≈35 s idle).
 The oauth2 library retries a failed refresh grant with the other client-auth style, so failing grants appear twice in the
-log (counts are only asserted for successful refreshes). 6/6 own mutants caught.""",
+log (counts are only asserted for successful refreshes). 6/6 own mutants caught.
+Round 2 added: a scheduled sign-out-versus-refresh scenario (all interleavings of one stale request and one sign-out on two replicas, rotating and non-rotating provider: `c12:session-resurrected-after-concurrent-sign-out`) and a provider without refresh support re-validating at its validation URL (429 / 5xx / stall answers).""",
 "C13": """*As built* (`harness/c13_storefaults.go`). 10 scenarios × (positions 1…n+1) × 17 fault kinds, each with go-redis retries
 off (crisp per-operation rules) and on (retry-agnostic invariants only); 12 parallel cells (own miniredis + hub + 2
 instances each); thorough adds all ordered pairs × 5 kinds. A cookie counts as "handed out" only if it is still in the jar
@@ -101,31 +110,41 @@ discovery; 25 structural kinds + tolerated oddities at every call position, 45 w
 clean login. ≈360 cases quick (≈15 s), 726 thorough. Found: refresh adopts a session without e-mail (fixed, §5), F6 (fixed).
 Observed, not asserted: the proxy's HTTP client to the IdP has no timeout — a provider that never answers blocks the handler;
 stalls therefore end in a reset or 500 in the workload. 11/12 own mutants caught (the 12th — missing id_token tolerated at
-redemption — is behaviour-preserving: the e-mail requirement still refuses the login), 2 controls silent.""",
+redemption — is behaviour-preserving: the e-mail requirement still refuses the login), 2 controls silent.
+Round 2 added: fault kind *client gives up while the provider stalls* in the refresh and legacy re-validation flows (exposed F21), an open-connection leak monitor at the fake IdP (20 / 60 faulted logins, connections counted by `ConnState`), a two-audience-claim instance with wrongly typed first claim. ≈410 cases quick (≈15–20 s), 838 thorough.""",
 "C15": """*As built* (`harness/c15_bypass.go`). 12 rule sets (anchored/unanchored, method-qualified, negated, legacy regex,
 alternation, rules containing `?`, lower-case method, negated-then-bare orders, extension rules, preflight on/off), each also
 built with the rule list reversed and rotated (the decision must not depend on configuration order); channels: protected
 path, `/oauth2/auth` + X-Forwarded-Uri, path + X-Forwarded-Uri, hostile X-Forwarded-Uri forms (`%zz`, lone `%`, leading `//`,
 fragments, backslash); addresses: 7 network sets × (4096 + 4096 + boundaries + mapped notation) × RemoteAddr / X-Real-IP /
-X-Real-IP with port / X-Forwarded-For list. ≈130 k evaluations / 1.6 k cells quick (≈25 s idle). Reverse-proxy mode without
-the client-IP header (unchanged tree: no exemption) is recorded, not judged. Found: F1 (fixed).""",
+X-Real-IP with port / X-Forwarded-For list. Round 2 added: *noise-header* channels — for every (method, path) a
+method-override / original-URI header (X-Forwarded-Method, X-HTTP-Method-Override, X-Original-URI, X-Rewrite-URL, …) naming a
+request the reference decides the OTHER way, on the instance without reverse-proxy mode (and, except X-Forwarded-*, on the one
+with it); a network set of nested prefixes sharing their base address (narrower first, IPv4-mapped spelling included) and every
+network set also configured in reverse order; reverse-proxy mode with a client-IP header whose first element is not an address,
+sent from a peer INSIDE a configured network (the peer's address must not be used instead). ≈225 k evaluations / 4.3 k cells
+quick (≈30 s idle). Reverse-proxy mode without the client-IP header (unchanged tree: no exemption) is recorded, not judged.
+Found: F1 (fixed).""",
 "C16": """*As built* (`harness/c16_forwarding.go`). 9 configurations × 27 base requests × 64 header subsets × 3 (quick) / 6 value
 sets; every base request is first executed twice (determinism guard: differing identical executions are inconclusive, not
 violations); one configuration over the wire driver, `--force-https` over the TLS wire driver (req.TLS ≠ nil). With
 reverse-proxy on: 5 configured client-IP headers × 6 values × subsets of the 7 other headers. ≈25 k evaluations quick
-(≈20 s), 171 k thorough. 15/15 own mutants caught, 2 controls silent. No violation on the unchanged tree.""",
+(≈20 s), 171 k thorough. 15/15 own mutants caught, 2 controls silent. No violation on the unchanged tree.
+Round 2 added: two configurations with several cookie domains and a Host outside all of them (cookies presented by hand), and the complete pair workload from odd peer addresses (`@` of a unix socket, `[::1]:1`, `unix`). ≈40 k evaluations quick (≈16 s), 263 k thorough.""",
 "C17": """*As built* (`harness/c17_ref.go`, `c17_sets.go`, `c17_gen.go`, `c17_faithful.go`; `--replay` implemented). 10 upstream sets;
 exhaustive {a,b}-paths to depth 4 ± trailing slash ± one `%2F` separator, every base × 27 query shapes, then seeded cases over
 the alphabet × 7 methods × bodies (0 B…1 MiB, Content-Length and chunked) × 12 header classes × 18 scripted upstream
 responses (incl. 103 Early Hints before the final status, 1 MiB, streamed, 204/304/401, gzip). With proxyRawPath the
 reference router matches on the ESCAPED path only. ≈12 k evaluations quick (≈15 s), 151 k thorough (≈3 min). Found: F9, F10
-(known findings), trailing-slash redirect appends the slash to the query (fixed). 29 own mutants caught, 3 controls silent.""",
+(known findings), trailing-slash redirect appends the slash to the query (fixed). 29 own mutants caught, 3 controls silent.
+Round 2 added: WebSocket upgrade requests (101 tunnel dialogue, 403, 200) against upstream URLs with paths, six sets of nested rewrite rules with different targets in six configured orders, upstream aborts mid chunked body / before any byte / short of Content-Length (the client must see an aborted or short transfer, or 502). 16 instances, ≈16.7 k evaluations quick (≈10 s), 171 k thorough.""",
 "C18": """*As built* (`harness/c18_cookieattrs.go`). Quick: 3-wise covering array (79 configurations × ≈9 hosts, 725 flows, ≈19 k
 Set-Cookie lines); thorough: full product (1 152 configurations, 365 k lines). A pairwise array missed a 3-way mutant, hence
 triples. Domain rule with the port ignored (F8 fixed); for look-alike hosts (`xa.example.com` vs `a.example.com`) both the
 plain-suffix and the label-boundary reading are accepted and counted. Boundary sweep of session sizes just below the split
 threshold under long attribute strings; domain lists with duplicates. ≈35 s quick. 18/18 own mutants caught, 2 controls
-silent.""",
+silent.
+Round 2 added: failing callbacks (stale / tampered / truncated / foreign CSRF cookie, missing cookie, bad state, provider error, from signed-in browsers too) and their 403/500 responses under the attribute monitor. ≈22.7 k evaluations quick (≈15–20 s).""",
 "C19": """*As built* (`harness/c19_panic.go`, `c19_fuzz.go`). 20 configurations; phase 1 every pool value once in an otherwise benign
 request on the endpoints that consume the field; 1b systematic PAIRS of fields consumed together (peer address × client-IP
 header, forwarded host × proto, …); 2 seeded random combinations; 3 corrupted Redis values under a valid ticket. Besides
@@ -133,8 +152,15 @@ attacker-forgeable bytes the harness presents VALIDLY SIGNED cookies with hostil
 served requests / 1.1 k cells quick (≈60 s under load), thorough adds Go's native fuzzer (`FuzzVerif_C19`, 1.5 M executions,
 8 workers, instances built before the first execution because the engine declares a target deadlocked after 10 s).
 msgpack v5.4.1 allocates the DECLARED length of a str32/bin32 up front: payloads declaring > 16 MiB are screened out (they
-exhausted the sandbox's memory; reachable only with the cookie secret; not a panic). Found: F2 and two CSRF-cookie panics
-(fixed).""",
+exhausted the sandbox's memory; reachable only with the cookie secret; not a panic). Round 2 added (`c19_more.go`): phase 4
+sessions of unusual identities (e-mail without `@`, several `@`, empty local part/domain, htpasswd form and basic-auth users
+without any e-mail, bearer tokens without e-mail) × 22 authorization query strings of the auth-only endpoint on four
+configurations; phase 5 clients that give up (context CANCELLED, as net/http does) 1 ns / 25 ms / 70 ms into a request while
+the provider answers after 120 ms — stale session (refresh / re-validation at a validation URL), callback, sign-out with
+`--backend-logout-url`, bearer, form sign-in; phase 6 the configuration space — 63 options × value pools (unusual spellings,
+boundary values: 388 single-option configurations) plus 120 / 1500 seeded combinations; every configuration that passes
+validation (≈85 %) serves a smoke set of ≈50 requests including a complete login over http and "https". Found: F2 and two
+CSRF-cookie panics (fixed).""",
 "C20": """*As built* (`harness_basic/c20_basic.go` in package basic, `harness/c20_reload.go`). Basic half: 10 (quick) / 100
 histories of one reloader + 2–16 validators checked with porcupine (every fifth history with a bcrypt entry and ≤ 3
 validators — slow validations overlap several reloads and porcupine's search grows steeply), 6 / 60 rounds of two overlapping
@@ -142,8 +168,11 @@ reloaders with invariant probes. Main half: atomically replaced htpasswd and e-m
 since the fsnotify-driven reload's completion is unobservable, each answer must be explained by a version in
 [newest version provably observed before the call … newest version replaced before the return] (register linearizability
 with open writes + real-time monotonicity); rename bursts (big, malformed, small) with a settle window; in-place rewrites
-judged on the final state only (a half-written file may legitimately be read). ≈100 k validations quick (≈45 s). Found: F5
-(fixed). 7/7 own mutants caught.""",
+judged on the final state only (a half-written file may legitimately be read). Round 2 added: removal of the file and a
+replacement written 0.2–3 s later (quick: 1.5 s, first round) — the replacement AND the version after it must come into force;
+a progress monitor in both halves (2000 heartbeats of a goroutine of the same process, ≥ 20 s of it being scheduled, without a
+single completed validation or reload while both are running ⇒ `c20:validators-and-reload-block-each-other` with a goroutine
+dump, instead of a hang). ≈115 k validations quick (≈45 s). Found: F5 (fixed). 7/7 own mutants caught.""",
 }
 
 def main():
